@@ -384,6 +384,34 @@ func c17Oracle(c *c17Case, fs []c17Feat) *Violation {
 			}
 		}
 	}
+	// an outer way of a multipolygon / boundary relation whose tags say nothing beyond the relation's own tags is
+	// represented by the relation and not converted on its own (osmtogeojson's rule, convert.go "skippable"),
+	// whether or not the relation ends up with a valid polygon
+	covered := map[int]bool{}
+	for _, r := range c.o.Relations {
+		if t := r.Tags.Find("type"); t == "multipolygon" || t == "boundary" {
+			rt := r.Tags.Map()
+			for _, m := range r.Members {
+				if m.Type != osm.TypeWay || m.Role != "outer" {
+					continue
+				}
+				for _, w := range c.o.Ways {
+					if int64(w.ID) != m.Ref {
+						continue
+					}
+					beyond := false
+					for _, t := range w.Tags {
+						if !c17Uninteresting[t.Key] && rt[t.Key] != t.Value && rt[t.Key] != "true" {
+							beyond = true
+						}
+					}
+					if !beyond {
+						covered[int(w.ID)] = true
+					}
+				}
+			}
+		}
+	}
 	seen := map[string]int{}
 	for _, f := range fs {
 		k := fmt.Sprintf("%s/%d", f.kind, f.id)
@@ -470,7 +498,7 @@ func c17Oracle(c *c17Case, fs []c17Feat) *Violation {
 					resolvable++
 				}
 			}
-			if resolvable >= 2 && c17Interesting(w.Tags) && outerOf[int(w.ID)] == 0 {
+			if resolvable >= 2 && c17Interesting(w.Tags) && outerOf[int(w.ID)] == 0 && !covered[int(w.ID)] {
 				return &Violation{Signature: "way-feature-missing", Text: fmt.Sprintf("way %d has tags %v and %d resolvable nodes but no feature", w.ID, w.Tags, resolvable)}
 			}
 			continue
